@@ -191,6 +191,18 @@ pub fn run(ctx: &Ctx) -> i32 {
                         let mut first: BTreeMap<u32, PalEntryM> = keys[..c].iter().map(|k| (*k, base[k].clone())).collect();
                         let e = first.get_mut(&keys[j]).unwrap();
                         e.rgba = [e.rgba[0] ^ 0x55, e.rgba[1].wrapping_add(100), e.rgba[2] ^ 0x0f, e.rgba[3]];
+                        // the other re-listed entries keep their colour but were renamed, named or un-named since
+                        for k in &keys[j + 1..c] {
+                            let e = first.get_mut(k).unwrap();
+                            match rng.below(4) {
+                                0 => e.name = if e.name.is_some() { None } else { Some("stale".into()) },
+                                1 => e.name = Some(format!("old name {}", k)),
+                                _ => {}
+                            }
+                        }
+                        if c - j > 1 {
+                            res.count("split_edit_and_grow_renamed_same_colour", 1);
+                        }
                         let second: BTreeMap<u32, PalEntryM> = keys[j..].iter().map(|k| (*k, base[k].clone())).collect();
                         chunks = vec![new_palette_chunk(&mut rng, &first), new_palette_chunk(&mut rng, &second)];
                         res.count("split_edit_and_grow", 1);
